@@ -106,7 +106,18 @@ func compare(ref, got final) (string, string) {
 		return sig, "stored key shares (key-manager accounts, by share public key) differ:" + diffStrings(ref.km.Accounts, got.km.Accounts)
 	}
 	if strings.Join(ref.km.SP, ",") != strings.Join(got.km.SP, ",") {
-		return "km-slashing-protection", "slashing-protection records differ:" + diffStrings(ref.km.SP, got.km.SP)
+		// a record too few means lost protection; a record too many is a leftover
+		have := map[string]bool{}
+		for _, r := range got.km.SP {
+			have[r] = true
+		}
+		sig := "km-extra-slashing-protection"
+		for _, r := range ref.km.SP {
+			if !have[r] {
+				sig = "km-missing-slashing-protection"
+			}
+		}
+		return sig, "slashing-protection records (highest attestation / proposal per share key) differ:" + diffStrings(ref.km.SP, got.km.SP)
 	}
 	return "", ""
 }
